@@ -7,7 +7,7 @@ from .. import drive, gen, model, traceana
 from ..engine import Outcome, Part, Prop
 from . import chan, common
 
-IMPORT_FAILS = ('ImportError', 'ValueError', 'SyntaxError', 'KeyError', 'SystemExit')
+IMPORT_FAILS = ('ImportError', 'ValueError', 'SyntaxError', 'KeyError', 'SystemExit', 'SkipTest', 'AssertionError')
 
 
 @st.composite
